@@ -306,6 +306,9 @@ def run(chk):
                    "" if ok else "the proposal is not merged with `tensors`: after loadNeededValues the tensor set is replaced by the new selection alone and old points outside it evaluate without their coefficients")
     chk.floor("C01-D8.tensors", nprop, 3, "calls of proposeUpdatedTensors")
 
+    from rules import restart
+    nrs = restart.restart_rule(chk, db, "C01-D10.restart")
+    chk.floor("C01-D10.restart", nrs, 6, "restart-loop obligations of the wavelet solver (instantiations)")
     from rules import complete
     nc9 = complete.complete_rule(chk, db, "C01-D9.complete")
     chk.floor("C01-D9.complete", nc9, 5, "fallback loops in computeDAGup (instantiations)")
